@@ -151,7 +151,7 @@ def print_assumptions(pid, bdir):
     vf = os.path.join(bdir, "Assumptions_%s.v" % pid)
     with open(vf, "w") as f:
         f.write("\n".join(lines) + "\n")
-    rc, out, _ = sh(["coqc"] + QFLAGS + ["-o", os.path.join(bdir, "Assumptions.vo"), vf], cwd=bdir, timeout=600)
+    rc, out, _ = sh(["coqc"] + QFLAGS + ["-o", os.path.join(bdir, "Assumptions_%s.vo" % pid), vf], cwd=bdir, timeout=600)
     res = {}
     for n in names:
         p = os.path.join(bdir, "pa_" + n + ".out")
